@@ -32,7 +32,7 @@ theorem elems_plain {sz cap bits : Nat} {a : Tbl} (hpl : isPlain c bits = true) 
 
 theorem wf_plain_iff {sz cap bits : Nat} {a : Tbl} (hpl : isPlain c bits = true) (hnd : isDense c bits = false) :
     WF c (.heap sz cap bits a) ↔
-      (PlainWF bits sz a ∧ cap = a.size ∧ c.W < bits ∧ (∀ i, i < a.size → get a i < 2 ^ c.W)) := by
+      (PlainWF bits sz a ∧ cap = a.size ∧ c.W < bits ∧ (∀ i, i < a.size → get a i < 2 ^ c.W) ∧ bits < 2 ^ c.W) := by
   unfold WF
   simp only [hnd, hpl, Bool.false_eq_true, if_false, if_true]
 
@@ -184,9 +184,9 @@ theorem placeAll_spec : ∀ (l : List Nat) (t : Tbl) (d : D), Inv t 0 → l.Nodu
 /-! ### ordinary insertion (the value is not the placeholder), including growth -/
 
 theorem mkWF_plain {sz cap bits : Nat} {a : Tbl} (pw : PlainWF bits sz a) (hcap : cap = a.size)
-    (hW : c.W < bits) (hwords : ∀ x ∈ nz a, x < 2 ^ c.W) : WF c (.heap sz cap bits a) :=
+    (hW : c.W < bits) (hb : bits < 2 ^ c.W) (hwords : ∀ x ∈ nz a, x < 2 ^ c.W) : WF c (.heap sz cap bits a) :=
   (wf_plain_iff (isPlain_of_gt hW) (isDense_of_gt hW)).2
-    ⟨pw, hcap, hW, (words_iff (Nat.two_pow_pos _)).2 hwords⟩
+    ⟨pw, hcap, hW, (words_iff (Nat.two_pow_pos _)).2 hwords, hb⟩
 
 theorem insOK_of_perm {sz cap bits sz' cap' : Nat} {a a' : Tbl} {e : Nat} (hW : c.W < bits)
     (hnot : e ∉ plainElems bits a) (hperm : (plainElems bits a').Perm (e :: plainElems bits a))
@@ -207,7 +207,7 @@ theorem insertPlain_ne_spec (g : Rng D) {sz cap bits : Nat} {a : Tbl} (pw : Plai
       InsOK c (.heap sz cap bits a) e (.heap sz' cap' bits a') b := by
   have hpl := isPlain_of_gt (c := c) hW
   have hnd := isDense_of_gt (c := c) hW
-  have wf : WF c (.heap sz cap bits a) := mkWF_plain pw hcap hW hwords
+  have wf : WF c (.heap sz cap bits a) := mkWF_plain pw hcap hW hb hwords
   have hfold : (if e = 0 then bits else e) = enc bits e := rfl
   have he' : enc bits e < 2 ^ c.W := by unfold enc; split <;> assumption
   by_cases hmem : e ∈ plainElems bits a
@@ -229,7 +229,7 @@ theorem insertPlain_ne_spec (g : Rng D) {sz cap bits : Nat} {a : Tbl} (pw : Plai
       rw [hplace] at hspec
       obtain ⟨s1, _, _, s4⟩ := hspec
       obtain ⟨q1, q2, q3⟩ := (insert_plain_nogrow c g pw e hne d).2 hmem a' hplace
-      refine ⟨sz + 1, cap, a', true, d, q1, insOK_of_perm hW hmem q3 (mkWF_plain q2 (by rw [s1]; exact hcap) hW ?_)⟩
+      refine ⟨sz + 1, cap, a', true, d, q1, insOK_of_perm hW hmem q3 (mkWF_plain q2 (by rw [s1]; exact hcap) hW hb ?_)⟩
       intro x hx
       rcases List.mem_cons.1 ((s4.mem_iff).1 hx) with h | h
       · rw [h]; exact he'
@@ -253,7 +253,7 @@ theorem insertPlain_ne_spec (g : Rng D) {sz cap bits : Nat} {a : Tbl} (pw : Plai
           (a.toList.filter (· ≠ 0)) (g.draw d cap bits).2 = .ok (t1, (g.draw d cap bits).2) := h1
       have p3 : (nz t2).Perm (enc bits e :: nz a) := p2.trans (List.Perm.cons _ p1)
       refine ⟨sz + 1, cap + 1 + modW c (g.draw d cap bits).1 % c.bigMod cap, t2, true, (g.draw d cap bits).2, ?_,
-        insOK_of_perm hW hmem ?_ (mkWF_plain ⟨by rw [s2, s1]; omega, i2, cut2, ?_, pw.ph_ne⟩ (by rw [s2, s1]) hW ?_)⟩
+        insOK_of_perm hW hmem ?_ (mkWF_plain ⟨by rw [s2, s1]; omega, i2, cut2, ?_, pw.ph_ne⟩ (by rw [s2, s1]) hW hb ?_)⟩
       · unfold insertPlain
         simp only [hne, if_false, hfold, bind, StateT.bind, pure, StateT.pure, Except.bind, Except.pure]
         cases hl : lookfor (enc bits e) a 0 with
@@ -451,17 +451,16 @@ theorem Plain2.scan_of_ok (g : Rng D) {sz cap bits : Nat} {a : Tbl} {e : Nat} {d
 
 theorem Plain2.plain_unfold {sz cap bits : Nat} {a : Tbl} (wf : WF c (.heap sz cap bits a))
     (hpl : isPlain c bits = true) (hnd : isDense c bits = false) :
-    PlainWF bits sz a ∧ cap = a.size ∧ c.W < bits ∧ ∀ x ∈ nz a, x < 2 ^ c.W := by
-  obtain ⟨pw, hcap, hW, hw⟩ := (wf_plain_iff hpl hnd).1 wf
-  exact ⟨pw, hcap, hW, (words_iff (Nat.two_pow_pos _)).1 hw⟩
+    PlainWF bits sz a ∧ cap = a.size ∧ c.W < bits ∧ (∀ x ∈ nz a, x < 2 ^ c.W) ∧ bits < 2 ^ c.W := by
+  obtain ⟨pw, hcap, hW, hw, hb⟩ := (wf_plain_iff hpl hnd).1 wf
+  exact ⟨pw, hcap, hW, (words_iff (Nat.two_pow_pos _)).1 hw, hb⟩
 
-/-- `insertPlain` is correct whenever it returns (all branches: placeholder re-pick, found, placed, growth).
-    Deviation from the requested statement: `hbits : bits < 2 ^ c.W` (not part of `WF`, true in reachable states). -/
+/-- `insertPlain` is correct whenever it returns (all branches: placeholder re-pick, found, placed, growth). -/
 theorem insertPlain_ok (_ok : CfgOK c) (g : Rng D) {sz cap bits : Nat} {a : Tbl} (wf : WF c (.heap sz cap bits a))
-    (hpl : isPlain c bits = true) (hnd : isDense c bits = false) (hbits : bits < 2 ^ c.W)
+    (hpl : isPlain c bits = true) (hnd : isDense c bits = false)
     (e : Nat) (he : e < 2 ^ c.W) (d d' : D) (r' : Rp) (b : Bool)
     (h : insertPlain c g sz cap bits a e d = .ok ((r', b), d')) : InsOK c (.heap sz cap bits a) e r' b := by
-  obtain ⟨pw, hcap, hW, hw⟩ := plain_unfold wf hpl hnd
+  obtain ⟨pw, hcap, hW, hw, hbits⟩ := plain_unfold wf hpl hnd
   obtain ⟨sz', cap', bits', a', b0, d0, hins, ok, _, _⟩ :=
     insertPlain_spec g pw hcap hW hbits hw e he d (scan_of_ok g h)
   rw [hins] at h
@@ -470,11 +469,11 @@ theorem insertPlain_ok (_ok : CfgOK c) (g : Rng D) {sz cap bits : Nat} {a : Tbl}
 
 /-- the result is again a plain table whose placeholder is in `(W, 2^W)` -/
 theorem insertPlain_shape (_ok : CfgOK c) (g : Rng D) {sz cap bits : Nat} {a : Tbl} (wf : WF c (.heap sz cap bits a))
-    (hpl : isPlain c bits = true) (hnd : isDense c bits = false) (hbits : bits < 2 ^ c.W)
+    (hpl : isPlain c bits = true) (hnd : isDense c bits = false)
     (e : Nat) (he : e < 2 ^ c.W) (d d' : D) (r' : Rp) (b : Bool)
     (h : insertPlain c g sz cap bits a e d = .ok ((r', b), d')) :
     ∃ sz' cap' bits' a', r' = .heap sz' cap' bits' a' ∧ c.W < bits' ∧ bits' < 2 ^ c.W := by
-  obtain ⟨pw, hcap, hW, hw⟩ := plain_unfold wf hpl hnd
+  obtain ⟨pw, hcap, hW, hw, hbits⟩ := plain_unfold wf hpl hnd
   obtain ⟨sz', cap', bits', a', b0, d0, hins, _, h1, h2⟩ :=
     insertPlain_spec g pw hcap hW hbits hw e he d (scan_of_ok g h)
   rw [hins] at h
@@ -483,10 +482,10 @@ theorem insertPlain_shape (_ok : CfgOK c) (g : Rng D) {sz cap bits : Nat} {a : T
 
 /-- totality: `insertPlain` never fails when the scan fuel suffices -/
 theorem insertPlain_total (_ok : CfgOK c) (g : Rng D) {sz cap bits : Nat} {a : Tbl} (wf : WF c (.heap sz cap bits a))
-    (hpl : isPlain c bits = true) (hnd : isDense c bits = false) (hbits : bits < 2 ^ c.W)
+    (hpl : isPlain c bits = true) (hnd : isDense c bits = false)
     (e : Nat) (he : e < 2 ^ c.W) (d : D) (hsmall : a.size + c.W + 3 ≤ 2 ^ c.W) :
     ∃ r' b d', insertPlain c g sz cap bits a e d = .ok ((r', b), d') := by
-  obtain ⟨pw, hcap, hW, hw⟩ := plain_unfold wf hpl hnd
+  obtain ⟨pw, hcap, hW, hw, hbits⟩ := plain_unfold wf hpl hnd
   have hs : e = bits → ∃ i, repickScan c g cap bits a d = some i := by
     intro _
     have hl : (premove bits a 0).2.toList.length = (premove bits a 0).2.size := Array.length_toList
@@ -527,10 +526,10 @@ theorem remove_plain_wf (c : Cfg) (g : Rng D) (fuel : Nat) {sz cap bits : Nat} {
     (e : Nat) (d : D) :
     ∃ r' b, remove c g fuel (.heap sz cap bits a) e d = .ok ((r', b), d) ∧
       RemOK c (.heap sz cap bits a) e r' b := by
-  obtain ⟨pw, hcap, hW, hw⟩ := plain_unfold wf hpl hnd
+  obtain ⟨pw, hcap, hW, hw, hbits⟩ := plain_unfold wf hpl hnd
   obtain ⟨sz', a', b, hrm, pw', hret, hmem⟩ := remove_plain c g fuel pw hpl hnd e d
   have hsz := remove_plain_size g fuel hpl hnd hrm
-  refine ⟨_, b, hrm, mkWF_plain pw' (by rw [hsz]; exact hcap) hW ?_, ?_, ?_⟩
+  refine ⟨_, b, hrm, mkWF_plain pw' (by rw [hsz]; exact hcap) hW hbits ?_, ?_, ?_⟩
   · intro w hw'
     have h0 : w ≠ 0 := (mem_nz.1 hw').1
     have h1 : dec bits w ∈ plainElems bits a' := List.mem_map.2 ⟨w, hw', rfl⟩
